@@ -2,6 +2,7 @@ package main
 
 // C16: HOW kinesis.SourceSplitter.Checkpoint reads the tracker state it persists (D61).
 //
+//	(helper-tolerant: Checkpoint may build its lists through helpers and loops; what counts is where the values come from)
 //	c16CheckpointOneLockedRead  1: the values stored as `AssignedShards` and `LastAssignedShardId` both come from ONE
 //	                               call `a, …, l := <tracker>.M()` of a SplitTracker method M that locks the tracker's
 //	                               mutex first, unlocks it by `defer`, and returns the LastAssignedSplitID field at the
@@ -14,7 +15,21 @@ package main
 // The recogniser is structural: names of locals and of the method are free; the mutex field is found by being the
 // receiver of `.Lock()`.
 
-import "go/ast"
+import (
+	"bytes"
+	"go/ast"
+	"go/printer"
+	"strings"
+)
+
+func exprString(e ast.Expr) string {
+	if e == nil {
+		return ""
+	}
+	var b bytes.Buffer
+	printer.Fprint(&b, fset, e)
+	return b.String()
+}
 
 func init() { extraFactFns = append(extraFactFns, c16Facts) }
 
@@ -32,6 +47,7 @@ func c16Facts(fc *facts) {
 	}
 	// the composite literal that is persisted
 	var lastExpr, listExpr ast.Expr
+	var persisted []ast.Expr // every `…Shards` value of the persisted literal
 	ast.Inspect(ck.Body, func(x ast.Node) bool {
 		cl, ok := x.(*ast.CompositeLit)
 		if !ok {
@@ -48,6 +64,9 @@ func c16Facts(fc *facts) {
 					lastExpr = kv.Value
 				case "AssignedShards":
 					listExpr = kv.Value
+				}
+				if strings.HasSuffix(k.Name, "Shards") {
+					persisted = append(persisted, kv.Value)
 				}
 			}
 		}
@@ -74,9 +93,10 @@ func c16Facts(fc *facts) {
 		problemFor([]string{name}, "Checkpoint: LastAssignedShardId is neither a local nor the tracker's field")
 		return
 	}
-	// the defining assignment `a, l := recv.M()`
+	// the ONE call `a, …, l := <tracker>.M()` that defines the id
 	var method string
-	var listVar string
+	var results []string
+	var trackerExpr ast.Expr
 	idPos, nResults := 1, 2 // position of the id among the call's results
 	ast.Inspect(ck.Body, func(x ast.Node) bool {
 		as, ok := x.(*ast.AssignStmt)
@@ -84,38 +104,102 @@ func c16Facts(fc *facts) {
 			return true
 		}
 		call, okc := as.Rhs[0].(*ast.CallExpr)
-		l0, ok0 := as.Lhs[0].(*ast.Ident)
-		if !okc || !ok0 {
+		if !okc {
 			return true
 		}
-		for k := 1; k < len(as.Lhs); k++ {
+		for k := 0; k < len(as.Lhs); k++ {
 			if lk, ok := as.Lhs[k].(*ast.Ident); ok && lk.Name == lastID.Name {
 				if sel, ok := call.Fun.(*ast.SelectorExpr); ok {
-					method, listVar, idPos, nResults = sel.Sel.Name, l0.Name, k, len(as.Lhs)
+					method, idPos, nResults, trackerExpr = sel.Sel.Name, k, len(as.Lhs), sel.X
+					results = nil
+					for _, l := range as.Lhs {
+						if id, ok := l.(*ast.Ident); ok {
+							results = append(results, id.Name)
+						}
+					}
 				}
 			}
 		}
 		return true
 	})
 	if method == "" {
-		fc.set(name, 0, true, "") // the id comes from somewhere else than the call that returns the list
+		fc.set(name, 0, true, "") // the id comes from somewhere else than a call that also returns the lists
 		return
 	}
-	// the persisted list is built from the first result of that call
-	usesList := false
-	ast.Inspect(ck.Body, func(x ast.Node) bool {
-		if r, ok := x.(*ast.RangeStmt); ok {
-			if id, ok := r.X.(*ast.Ident); ok && id.Name == listVar {
-				usesList = true
-			}
+	// Locals derived from the results of that call (through helpers, loops, conversions): a local assigned in a
+	// statement that mentions a derived variable — on its right-hand side, in the range expression of an enclosing
+	// loop, or as the indexed target `pb[i] = …` — is derived too.
+	derived := map[string]bool{}
+	for _, r := range results {
+		derived[r] = true
+	}
+	mentions := func(n ast.Node) bool {
+		found := false
+		if n == nil {
+			return false
 		}
-		if id, ok := x.(*ast.Ident); ok && id.Name == listVar && x != nil {
-			if e, ok := listExpr.(*ast.Ident); ok && e.Name == listVar {
-				usesList = true
+		ast.Inspect(n, func(y ast.Node) bool {
+			if id, ok := y.(*ast.Ident); ok && derived[id.Name] {
+				found = true
 			}
+			return true
+		})
+		return found
+	}
+	for changed := true; changed; {
+		changed = false
+		var walk func(n ast.Node, inDerivedLoop bool)
+		walk = func(n ast.Node, inDerivedLoop bool) {
+			ast.Inspect(n, func(y ast.Node) bool {
+				switch t := y.(type) {
+				case *ast.RangeStmt:
+					if t.Body != nil {
+						walk(t.Body, inDerivedLoop || mentions(t.X))
+					}
+					return false
+				case *ast.AssignStmt:
+					from := inDerivedLoop
+					for _, r := range t.Rhs {
+						from = from || mentions(r)
+					}
+					if from {
+						for _, l := range t.Lhs {
+							target := l
+							if ix, ok := l.(*ast.IndexExpr); ok {
+								target = ix.X
+							}
+							if id, ok := target.(*ast.Ident); ok && id.Name != "_" && !derived[id.Name] {
+								derived[id.Name] = true
+								changed = true
+							}
+						}
+					}
+				}
+				return true
+			})
+		}
+		walk(ck.Body, false)
+	}
+	// every persisted tracker value is built from results of that call only: the expression mentions a derived local
+	// and no other tracker read exists in Checkpoint (checked below)
+	usesList := mentions(listExpr)
+	for _, el := range persisted {
+		usesList = usesList && mentions(el)
+	}
+	// Checkpoint reads the tracker nowhere else: the receiver expression of the call occurs exactly once
+	trackerReads := 0
+	want := exprString(trackerExpr)
+	ast.Inspect(ck.Body, func(x ast.Node) bool {
+		if e, ok := x.(ast.Expr); ok && exprString(e) == want {
+			trackerReads++
+			return false
 		}
 		return true
 	})
+	if trackerReads != 1 {
+		fc.set(name, 0, true, "") // Checkpoint reads tracker state outside the one locked call
+		return
+	}
 	m := findFunc(tf, "SplitTracker", method)
 	if m == nil || m.Body == nil || m.Recv == nil || len(m.Recv.List) == 0 || len(m.Recv.List[0].Names) == 0 {
 		problemFor([]string{name}, "SplitTracker.%s not found", method)
@@ -199,5 +283,11 @@ func c16Facts(fc *facts) {
 		fc.set(name, 1, true, "")
 		return
 	}
-	problemFor([]string{name}, "SplitTracker.%s is not `lock; defer unlock; … return <assigned>, <LastAssignedSplitID>` (lock=%v defer=%v otherUnlock=%v returnsField=%v usesList=%v)", method, muField != "", deferred, otherUnlock, returnsField, usesList)
+	if muField == "" || !deferred || otherUnlock || !usesList {
+		// the method does not hold the mutex from its first statement to its return, or a persisted list does not come
+		// from the one call
+		fc.set(name, 0, true, "")
+		return
+	}
+	problemFor([]string{name}, "SplitTracker.%s: the value returned at the id's position is not the LastAssignedSplitID field (returns=%d)", method, returns)
 }
